@@ -23,6 +23,11 @@ func Run(r *rep.Report, tier string) {
 		depth, budget = 8, 9*time.Minute
 	}
 	deadline := time.Now().Add(budget)
+	if tier == "thorough" {
+		typedJSON(r, 4)
+	} else {
+		typedJSON(r, 3)
+	}
 	workers := runtime.NumCPU()
 	p, err := newPool(workers)
 	if err != nil {
